@@ -16,7 +16,7 @@ Undecided: that grouping keeps exactly one survivor per key for every mix of kin
 import ast
 from ..core import walk_own, norm, AnalysisError
 from ..report import Ob, Floor
-from ..rules import writer, threshold, twin
+from ..rules import writer, threshold, twin, direction, globalstate, gens, plumb
 from ..abseval import Evaluator, Sym, Opaque
 from .. import exceptions
 
@@ -125,6 +125,12 @@ def check(ctx, tier):
     obs += removal_tables(ctx, "D-c")
     obs += twin.check_pairs(ctx, "D-d", "C02")
     obs += ctx.attempt(lambda c, cl: writer.protocol(c, cl)[0], ctx, "D-e", default=[])
+    obs += ctx.attempt(lambda c, cl: direction.explicit_direction(c, cl)[0], ctx, "D-f", default=[])
+    obs += ctx.attempt(lambda c, cl: globalstate.module_level_mutables(c, cl)[0], ctx, "D-g", default=[])
+    obs += ctx.attempt(lambda c, cl: gens.check(c, cl)[0], ctx, "D-h", default=[])
+    obs += ctx.attempt(lambda c, cl: plumb.forwarding(c, cl, "remove_empty_shapes", lambda prm: prm == "remove_empty_shapes",
+                                                      [c.flow.param("shexer.shaper:Shaper.__init__", "remove_empty_shapes")],
+                                                      skip_funcs={"shexer.shaper:Shaper.__init__"})[0], ctx, "D-i", default=[])
     exceptions.apply(obs)
     floors = [Floor("threshold filter comparisons", len(tf.filters), 3), Floor("candidate construction sites", n_sites, 3),
               Floor("selection/grouping functions", n_sel, 5)]
